@@ -220,8 +220,8 @@ type ObjectLiteralField struct {
 
 func (self ObjectLiteralField) String() string {
 	var key string
-	if !util.IsIdent(self.Key.ident) {
-		key = fmt.Sprintf("\"%s\"", self.Key.ident)
+	if !lexer.IsIdent(self.Key.ident) {
+		key = fmt.Sprintf("\"%s\"", util.EscapeString(self.Key.ident))
 	} else {
 		key = self.Key.ident
 	}
